@@ -67,6 +67,9 @@ func (c *Cluster) doExt(s Step, out *Outcome) bool {
 	// ----- ACL
 	case "acl.policy.set":
 		p := &structs.ACLPolicy{ID: s.ID, Name: s.Name, Description: s.Text2, Rules: s.Text, Datacenters: s.List}
+		if s.Text2 == "fat" {
+			p.Description = fedFatText
+		}
 		p.EnterpriseMeta = *defaultEntMeta()
 		p.SetHash(true)
 		c.apply(structs.ACLPolicySetRequestType, &structs.ACLPolicyBatchSetRequest{Policies: structs.ACLPolicies{p}}, s, out)
@@ -107,6 +110,10 @@ func (c *Cluster) doExt(s Step, out *Outcome) bool {
 			t.AuthMethod = s.Name
 		}
 		t.EnterpriseMeta = *defaultEntMeta()
+		if _, ex, _ := st.ACLTokenGetByAccessor(nil, s.ID, nil); ex != nil {
+			// as ACL.TokenSet: creation and expiration time cannot be changed by an update
+			t.CreateTime, t.ExpirationTime = ex.CreateTime, ex.ExpirationTime
+		}
 		if s.Idx != "" {
 			var cur uint64
 			if _, ex, _ := st.ACLTokenGetByAccessor(nil, s.ID, nil); ex != nil {
